@@ -718,3 +718,80 @@ Definition spec_expr (e : texpr) (q : query) (order sizes : list Z) (da db : lis
   | QHist k lo hi => GL (spec_hist k lo hi (concat tracks))
   | QValues => GR (concat (map (fun '(name, t) => values_under t (ivs_of name db)) (combine order tracks)))
   end.
+
+(* ====================================================================================== *)
+(* Windows around streamed locations: get_location('start').get_windows(flank= | window_size=) *)
+(* ====================================================================================== *)
+Inductive warg := WFlank (f : Z) | WSize (w : Z).
+(* named kernel (Gen/C11.v regenerates it from both get_windows implementations) *)
+Definition m_win_flanks (a : warg) : Z * Z :=
+  match a with
+  | WFlank f => (f, f + 1)
+  | WSize w => (w / 2, w / 2 + w mod 2)
+  end.
+(* arithmetics/intervals.py:clip *)
+Definition clip_iv (size : Z) (i : iv) : iv :=
+  (Z.min (Z.max 0 (fst i)) size, Z.max (Z.min size (snd i)) 0).
+Definition loc_windows (a : warg) (size : Z) (ivs : list iv) : list iv :=
+  let '(l, r) := m_win_flanks a in map (fun i => clip_iv size (fst i - l, fst i + r)) ivs.
+
+Definition op_mk_iv (a : list gval) : gval :=
+  match a with [GL _; GL lo; GL hi] => GIv (combine lo hi) | _ => GErr end.
+Definition op_clip (a : list gval) : gval :=
+  match a with [GIv l; GZ size] => GIv (map (clip_iv size) l) | _ => GErr end.
+
+Inductive wquery := WWindows | WValues | WMean0.
+(* nodes in creation order: intervals (0..4), pileup + names (5, 6), location (chromosome 7, position 8, sizes 9),
+   position - l (10), position + r (11), Interval(...) (12), GenomicIntervalsStreamed (13..16), clip (17),
+   GenomicIntervalsStreamed of the clipped windows (18..21), values (22), sum_and_n (23) *)
+Definition window_graph (a : warg) (q : wquery) (sizes : list Z) (ivs : list (list iv)) : list (node gval) * nat :=
+  let '(l, r) := m_win_flanks a in
+  let sz := NStream (map GZ sizes) in
+  let g := intervals_nodes 0 ivs sizes
+           ++ [NComp op_pileup [0%nat; 4%nat]; names_node (length sizes)]
+           ++ [NComp op_chrom [0%nat]; NComp op_start [0%nat]; sz]
+           ++ [ufunc_node BSub [ONode 8; OConst l]; ufunc_node BAdd [ONode 8; OConst r]; NComp op_mk_iv [7%nat; 10%nat; 11%nat]]
+           ++ [NComp op_start [12%nat]; NComp op_stop [12%nat]; NComp op_chrom [12%nat]; sz]
+           ++ [NComp op_clip [12%nat; 16%nat]]
+           ++ [NComp op_start [17%nat]; NComp op_stop [17%nat]; NComp op_chrom [17%nat]; sz]
+           ++ [NComp op_extract [5%nat; 18%nat; 19%nat]; NComp op_sum_n0 [22%nat]] in
+  (g, match q with WWindows => 17%nat | WValues => 22%nat | WMean0 => 23%nat end).
+Definition run_windows (a : warg) (q : wquery) (order sizes : list Z) (cs : list (list (Z * iv))) : option gval :=
+  let '(g, root) := window_graph a q sizes (per_chromosome order cs) in
+  match run_graph g root with
+  | ROk vs => match q with
+              | WWindows => Some (GT vs)
+              | WValues => Some (gconcat vs)
+              | WMean0 => reduce1 red_mean_current vs
+              end
+  | _ => None
+  end.
+Definition spec_windows (a : warg) (q : wquery) (order sizes : list Z) (d : list (Z * iv)) : gval :=
+  let per := map (fun '(name, size) => (coverage size (ivs_of name d), loc_windows a size (ivs_of name d))) (combine order sizes) in
+  let vals := concat (map (fun '(t, w) => values_under t w) per) in
+  match q with
+  | WWindows => GT (map (fun '(_, w) => GIv w) per)
+  | WValues => GR vals
+  | WMean0 => if len (concat vals) =? 0 then GZ 0 else GSN (spec_cols vals)
+  end.
+
+(* ====================================================================================== *)
+(* count_encoded on more than max_size values: counted block by block *)
+(* ====================================================================================== *)
+Definition count_vector (K : Z) (xs : list Z) : list Z := map (fun b => countZ b xs) (arange K).
+Definition max_block : Z := 1000000.
+(* sum(np.bincount(values[i*max_size:(i+1)*max_size], minlength) for i in range(len(values) // max_size + 1)):
+   entry c of the summed bincounts is the sum over the blocks of the number of c's in the block *)
+Definition m_nblocks (n M : Z) : Z := n / M + 1.
+Definition count_blocks (M K : Z) (l : list Z) : list Z :=
+  map (fun c => sumZ (map (fun i => countZ c (slice (i * M) ((i + 1) * M) l)) (arange (m_nblocks (len l) M)))) (arange K).
+Definition count_encoded_flat (M K : Z) (l : list Z) : list Z :=
+  if len l >? M then count_blocks M K l else count_vector K l.
+(* reads are handed to Coq run-length encoded: (letter, run length) *)
+Definition runs_t := list (Z * Z).
+Definition expand_runs (r : runs_t) : list Z := concat (map (fun '(x, n) => repeat x (Z.to_nat n)) r).
+(* count_kmers(stream.sequence, 1): per chunk all reads flattened, counted, the chunk results summed *)
+Definition stream_big_counts (M K : Z) (cs : list (list runs_t)) : option (list Z) :=
+  reduce1 vadd (map (fun reads => count_encoded_flat M K (concat (map expand_runs reads))) cs).
+Definition spec_big_counts (K : Z) (cs : list (list runs_t)) : list Z :=
+  map (fun c => sumZ (map snd (filter (fun xn => fst xn =? c) (concat (concat cs))))) (arange K).
